@@ -259,7 +259,8 @@ ARPrograms(z) ==
 IOOps == { SayS("ab"), Say(N(1)), SListen(0, Var("x")), SListen(0, ENone), Say(Var("x")), Say(PlusE(Var("x"), S("!"))),
            SIf(0, Var("x"), <<SayS("t")>>, TRUE, <<SayS("f")>>), SListen(0, Idx(Var("x"), N(0))) }
 IOInputs == { <<>>, <<"l1\n">>, <<"l1">>, <<"\n", "z\n">>, <<"a\n", "b\n", "c">>,
-              <<"ke", "pt\n", "x">>, <<"a\nb\n", "c\n">> }             \* a line delivered in pieces; two lines delivered at once
+              <<"ke", "pt\n", "x">>, <<"a\nb\n", "c\n">>,              \* a line delivered in pieces; two lines delivered at once
+              <<"kept\nx">>, <<"k", "e", "pt", "\n", "x">>, <<"kept", "\nx">> }   \* the same bytes as <<"ke", "pt\n", "x">>, cut elsewhere
 IOInputsU == { <<"~\n", "b~">> }
 IOProgs == Seqs1(IOOps) \cup Seqs2(IOOps, IOOps) \cup (IF Tier = "quick" THEN {} ELSE { <<a, b, c>> : a, b, c \in IOOps })
 -----------------------------------------------------------------------------
